@@ -1502,6 +1502,9 @@ func (is *iterScanner) Next() bool {
 }
 
 func scanColumn(p []byte, col ColumnInfo, dest []interface{}) (int, error) {
+	if len(dest) == 0 {
+		return 0, fmt.Errorf("gocql: no destination left for column %s", col.Name)
+	}
 	if dest[0] == nil {
 		return 1, nil
 	}
